@@ -358,8 +358,17 @@ var tmpl = template.Must(template.New("type1").Funcs(template.FuncMap{
 		return x.PS()
 	},
 	"E": writeEncoding,
+	"H": func(s string) string {
+		// text in the %! header line must not end the comment
+		return strings.Map(func(r rune) rune {
+			if r == '\n' || r == '\r' || r == '\f' {
+				return ' '
+			}
+			return r
+		}, s)
+	},
 }).Parse(`{{define "SectionA" -}}
-%!FontType1-1.1: {{.FontName}} {{.Version}}
+%!FontType1-1.1: {{.FontName}} {{.Version|H}}
 {{if not .CreationDate.IsZero}}%%CreationDate: {{.CreationDate.Format "2006-01-02 15:04:05 -0700 MST"}}
 {{end -}}
 10 dict begin
